@@ -166,6 +166,11 @@ impl Report {
     /// one evaluated case; `nontrivial` by the property's rule; `canon` identifies the case
     pub fn case(&mut self, canon: &str, nontrivial: bool) {
         self.evaluations += 1;
+        LAST_CASE.with(|c| {
+            let mut c = c.borrow_mut();
+            c.clear();
+            c.push_str(canon);
+        });
         if nontrivial {
             let mut h = std::collections::hash_map::DefaultHasher::new();
             canon.hash(&mut h);
@@ -287,7 +292,14 @@ pub fn parallel<J: Send>(jobs: Vec<J>, workers: usize, property: &str, f: impl F
                 let job = { queue.lock().unwrap().pop() };
                 let Some((idx, job)) = job else { break };
                 let mut r = Report::new(property, "");
-                f(job, &mut r);
+                // a panic of the judging code itself (not of the code under test, which runs inside `guarded`): an assumption
+                // about the implementation's data that holds on the unchanged tree was broken; reported with the case that was
+                // being judged instead of losing the whole run
+                if std::panic::catch_unwind(std::panic::AssertUnwindSafe(|| f(job, &mut r))).is_err() {
+                    let case = LAST_CASE.with(|c| c.borrow().clone());
+                    let what = LAST_PANIC.with(|c| c.borrow().clone());
+                    r.oracle("judge", "panicked-on-the-implementation's-data", &case, &what);
+                }
                 results.lock().unwrap().push((idx, r));
             });
         }
@@ -302,6 +314,13 @@ pub fn parallel<J: Send>(jobs: Vec<J>, workers: usize, property: &str, f: impl F
 
 pub fn n_workers() -> usize {
     std::thread::available_parallelism().map(|n| n.get()).unwrap_or(4).min(16)
+}
+
+thread_local! {
+    /// the case most recently registered on this thread (context of a panic of the judging code)
+    pub static LAST_CASE: std::cell::RefCell<String> = std::cell::RefCell::new(String::new());
+    /// message and location of the most recent panic on this thread (filled by the panic hook)
+    pub static LAST_PANIC: std::cell::RefCell<String> = std::cell::RefCell::new(String::new());
 }
 
 /// Run `f`, turning a panic into `Err(message)`.
